@@ -499,6 +499,118 @@ Theorem C13_src_examples :
 Proof. exact (conj (proj1 SrcDemo.estimate_demo) (conj (proj2 SrcDemo.estimate_demo) (conj (proj1 SrcDemo.mcmc_demo) (conj (proj2 SrcDemo.mcmc_demo) SrcDemo.scipy_demo)))). Qed.
 Print Assumptions C13_src_examples.
 
+(* ---------------------------------------------------------------------- the flow check on the generated programs
+   (Api/SrcFlow.v, SrcFlowProofs.v, SrcFlowGenProofs.v): history independence of the programs regenerated from the source,
+   symbolically — no evaluation of the flow check on a recorded trace. *)
+From Leaspy Require Import Api.SrcFlow Api.SrcFlowProofs Api.SrcFlowGenProofs.
+
+(** MCMC personalisation as written today, for EVERY instance (any variable lists, any data, any initialisation functions, any
+    sampler activity, any seed): if what the initialisation functions of the individual variables READ (between the initial
+    assignments, on the model's own state) is determined by kept variables ([mcmc_reads_kept], computable) and kept + data +
+    individual variables contain every independent variable ([closed]), then the script the generated program denotes passes
+    the flow check of [C13_history_independent] and the outcome of the call (everything read or drawn, the operation log,
+    the generator positions, the pointer) is the same on any two model states that agree on the kept variables — whatever
+    earlier calls left in them — and from any two generator positions. *)
+Theorem C13_src_mcmc_history_independent :
+  forall (V : Type) sread swrite sclone tracked tape seed_pos anc indep simOn,
+    state_interface V sread swrite sclone anc indep simOn ->
+    forall (kept : view) (I : inst V),
+      mcmc_reads_kept V anc kept I = true ->
+      closed anc (mcmc_view V kept I) ->
+      exists script,
+        denote V I gen_mcmc = Some script
+        /\ flow_all V anc 1 ([kept], 0) script <> None
+        /\ forall s s' p p', simOn kept s s' ->
+             orel (same_outcome V) (api_call V sread swrite sclone tracked tape seed_pos script s p)
+                                   (api_call V sread swrite sclone tracked tape seed_pos script s' p').
+Proof. exact src_mcmc_history_independent. Qed.
+Print Assumptions C13_src_mcmc_history_independent.
+
+(** ... clean AND repeatable, on the generated program: with the samplers assigning data / individual variables only
+    ([sampling_ok]), the call leaves every data and individual variable unset and the kept variables as they were, and the
+    same call on the object AS LEFT, from wherever the generators were left, has the same outcome. *)
+Theorem C13_src_mcmc_repeat_same_answer :
+  forall (V : Type) sread swrite sclone tracked tape seed_pos anc indep simOn,
+    state_interface V sread swrite sclone anc indep simOn ->
+    forall (kept : view) (I : inst V),
+      sampling_ok V I = true ->
+      mcmc_reads_kept V anc kept I = true ->
+      closed anc (mcmc_view V kept I) ->
+      (forall n, In n (mcmc_dvars V I ++ i_ind V I) -> kept n = false /\ indep n = true) ->
+      exists script,
+        denote V I gen_mcmc = Some script
+        /\ forall s p c1, simOn top s s -> api_call V sread swrite sclone tracked tape seed_pos script s p = Some c1 ->
+             exists s1, model_state V c1 = Some s1 /\ cCur c1 = 1 /\ simOn kept s1 s
+                        /\ (forall n, In n (mcmc_dvars V I ++ i_ind V I) -> snd (sread s1 n) = None)
+                        /\ orel (same_outcome V) (api_call V sread swrite sclone tracked tape seed_pos script s1 (cPos c1)) (Some c1).
+Proof. exact src_mcmc_repeat_same_answer. Qed.
+Print Assumptions C13_src_mcmc_repeat_same_answer.
+
+(** estimate as written today ([joint]: models/joint.py), for EVERY instance and ANY number of requests: if each variable read
+    at the end of a request is determined by kept variables, "t" and what the request assigned ([est_flow_ok], computable: in
+    particular by none of the observations / individual values left in the state), the denoted script passes the flow check
+    and the outcome is the same on any two model states that agree on the kept variables. *)
+Theorem C13_src_estimate_history_independent :
+  forall (V : Type) sread swrite sclone tracked tape seed_pos anc indep simOn,
+    state_interface V sread swrite sclone anc indep simOn ->
+    forall (joint : bool) (kept : view) (I : inst V),
+      est_flow_ok V anc kept (i_name V I "t")
+                  (if joint then estj_outs V I else [i_name V I "model"])
+                  (map (if joint then estj_req V I else est_req V I) (seq 0 (i_n V I))) = true ->
+      exists script,
+        denote V I (if joint then gen_estimate_joint else gen_estimate) = Some script
+        /\ flow_all V anc 1 ([kept], 0) script <> None
+        /\ forall s s' p, simOn kept s s' ->
+             orel (same_outcome V) (api_call V sread swrite sclone tracked tape seed_pos script s p)
+                                   (api_call V sread swrite sclone tracked tape seed_pos script s' p).
+Proof. exact src_estimate_history_independent. Qed.
+Print Assumptions C13_src_estimate_history_independent.
+
+(** REFUTED for scipy_minimize, over the generated program (finding F6,
+    `scipy_minimize:start-point-from-individual-values-left-by-fit`).  (1) For EVERY instance with at least one individual
+    whose per-individual initialisation (`put_individual_parameters`, confined to the clone `states[idx]`) starts by reading a
+    variable that kept + data variables do not determine — as it does: it reads the individual values the clone inherited
+    from `model.state` — the flow check REJECTS every script the generated program denotes.  (2) On the memo table such an
+    instance exists, the generated program denotes a script, two states that agree on the kept variable (after a fit / after
+    a load) give DIFFERENT answers, and the state left by a fit returns its own stale value 5. *)
+Theorem C13_src_scipy_flow_refuted :
+  (forall (V : Type) (anc : nat -> list nat) (kept : view) (I : inst V) (n : nat) (script : list (ev V)),
+     i_n V I <> 0 -> scipy_first_read V I n ->
+     forallb (vadds (mcmc_dvars V I) kept) (anc n) = false ->
+     denote V I gen_scipy = Some script ->
+     flow_all V anc 1 ([kept], 0) script = None)
+  /\ exists script,
+       denote Memo.V FlowDemo.scipy_inst gen_scipy = Some script
+       /\ i_n Memo.V FlowDemo.scipy_inst <> 0 /\ scipy_first_read Memo.V FlowDemo.scipy_inst 0
+       /\ forallb (vadds (mcmc_dvars Memo.V FlowDemo.scipy_inst) Memo.kept) (Memo.anc 0) = false
+       /\ flow_all Memo.V Memo.anc 1 ([Memo.kept], 0) script = None
+       /\ Memo.simOn Memo.kept Memo.after_fit Memo.after_load
+       /\ option_map (fun c => cRegs c) (Memo.api_call script Memo.after_fit (0, 0, 0))
+          <> option_map (fun c => cRegs c) (Memo.api_call script Memo.after_load (0, 0, 0))
+       /\ option_map (fun c => Memo.hd_or (cRegs c)) (Memo.api_call script Memo.after_fit (0, 0, 0)) = Some (Some 5%Z).
+Proof. split; [exact src_scipy_flow_rejected | exact FlowDemo.scipy_flow_refuted]. Qed.
+Print Assumptions C13_src_scipy_flow_refuted.
+
+(** Non-vacuity of the two positive theorems on the memo table: the MCMC instance of C13_src_examples meets both hypotheses
+    (its initialisation function reads the parameter; kept + data + individual variables are closed) and the generated
+    program returns the same registers from the state left by a fit and from a loaded one, from different generator
+    positions; the estimate instance meets [est_flow_ok]. *)
+Theorem C13_src_flow_examples :
+  (mcmc_reads_kept Memo.V Memo.anc Memo.kept SrcDemo.mcmc_inst = true
+   /\ closed Memo.anc (mcmc_view Memo.V Memo.kept SrcDemo.mcmc_inst)
+   /\ match denote Memo.V SrcDemo.mcmc_inst gen_mcmc with
+      | Some sc => option_map (fun c => cRegs c) (Memo.api_call sc Memo.after_fit (4, 5, 6))
+                   = option_map (fun c => cRegs c) (Memo.api_call sc Memo.after_load (1, 1, 1))
+      | None => False
+      end)
+  /\ est_flow_ok Memo.V Memo.anc Memo.kept (i_name Memo.V SrcDemo.est_inst "t") [i_name Memo.V SrcDemo.est_inst "model"]
+                 (map (est_req Memo.V SrcDemo.est_inst) (seq 0 (i_n Memo.V SrcDemo.est_inst))) = true.
+Proof.
+  exact (conj (conj (proj1 FlowDemo.mcmc_flow_demo) (conj FlowDemo.mcmc_view_closed (proj2 (proj2 FlowDemo.mcmc_flow_demo))))
+              FlowDemo.estimate_flow_demo).
+Qed.
+Print Assumptions C13_src_flow_examples.
+
 (* ====================================================================== the settings object itself
    `AlgorithmSettings(name, **kwargs)` (algo/settings.py) and the copy the algorithm works on (algo/base.py), on the model
    of Api/Settings.v: JSON-like values of any depth; dictionaries as objects in a heap.  The update rule, the special keys,
